@@ -41,9 +41,9 @@ import (
 // c04Plan describes how the answers of the EVM are doctored for one conversion.
 // Empty strings = the real EVM's answer is passed on untouched.
 type c04Plan struct {
-	Bal0   string `json:"bal0,omitempty"`    // +1 | -1 | nil | short | long | error | vmerror
+	Bal0   string `json:"bal0,omitempty"`    // +1 | -1 | nil | short | long | error | vmerror | max | zero
 	Est    string `json:"est,omitempty"`     // error
-	Call   string `json:"call,omitempty"`    // false | nil | garbage | short | approval | approval-first | topicless | custom-then-approval | custom-approval-first | error | vmerror | fabricate | amt-1 | amt+1
+	Call   string `json:"call,omitempty"`    // false | nil | garbage | short | approval | approval-first | topicless | custom-then-approval | custom-approval-first | error | vmerror | fabricate | amt-1 | amt+1 | selfdestruct
 	Bal1   string `json:"bal1,omitempty"`    // +1 | -1 | nil | short | long | error | vmerror | as-expected
 	FailAt int    `json:"fail_at,omitempty"` // the k-th EVM keeper call (ApplyMessage or EstimateGas) returns an error
 }
@@ -82,6 +82,8 @@ type c04Wrap struct {
 	erc20types.EVMKeeper
 	abi abi.ABI
 	st  *c04WrapState
+	// kill removes a contract account from the state database (the effect of SELFDESTRUCT executed inside a call)
+	kill func(ctx sdk.Context, addr common.Address)
 }
 
 var c04CustomTopics = []string{crypto.Keccak256Hash([]byte("FeeCharged(address,uint256)")).Hex(), common.BytesToHash(c04Thief.Bytes()).Hex()}
@@ -205,6 +207,13 @@ func (w *c04Wrap) c04Query(ctx sdk.Context, msg core.Message, tracer vm.EVMLogge
 			}
 			res.Ret = c04Word(new(big.Int).Add(new(big.Int).SetBytes(res.Ret[:32]), big.NewInt(d)))
 		}
+	case "max":
+		// the largest uint256: a balance to which nothing can be added without wrapping around (a token with unchecked
+		// arithmetic); with Bal1 = as-expected the second answer is (2^256-1 + amount) mod 2^256
+		res.Ret = c04Word(new(big.Int).Sub(c04Two256, big.NewInt(1)))
+	case "zero":
+		// nothing there: a debit of any amount "expects" a negative balance, which as-expected reports modulo 2^256
+		res.Ret = c04Word(big.NewInt(0))
 	case "long":
 		// return data longer than one ABI word: the real balance, followed by a counter that moves by the amount of the
 		// call.  Only the first word is the answer; a reader that decodes the whole return data sees the counter move
@@ -284,6 +293,11 @@ func (w *c04Wrap) c04Commit(ctx sdk.Context, msg core.Message, tracer vm.EVMLogg
 		res, err = w.EVMKeeper.ApplyMessage(ctx, fwd, tracer, true)
 		if err != nil {
 			return res, err
+		}
+		if dev == "selfdestruct" && msg.To() != nil && w.kill != nil {
+			// the token executes SELFDESTRUCT inside the module's own call: the call itself answers as usual, and
+			// from here on the contract account is gone (every later query finds no code)
+			w.kill(ctx, *msg.To())
 		}
 	}
 	extra := func(topics []string) *evmtypes.Log {
@@ -428,7 +442,7 @@ func c04NewWorld() *c04World {
 	for _, u := range append([]common.Address{w.dep}, w.users...) {
 		w.c04Account(ctx, u)
 	}
-	w.wrap = &c04Wrap{EVMKeeper: a.EvmKeeper, abi: w.abi}
+	w.wrap = &c04Wrap{EVMKeeper: a.EvmKeeper, abi: w.abi, kill: w.c04Suicide}
 	w.wk = erc20keeper.NewKeeper(runtime.NewKVStoreService(a.GetKey(erc20types.StoreKey)), a.AppCodec(), a.GetSubspace(erc20types.ModuleName),
 		a.AccountKeeper, a.BankKeeper, w.wrap, authtypes.NewModuleAddress("gov").String())
 
